@@ -154,7 +154,9 @@ int main(int argc, char **argv) {
     int n = toks(line, tv, 16);
     if (n == 0) { printf("\n"); continue; }
     const char *op = tv[0];
-    alarm(90); // a call that does not return is a finding, not a reason for the check to wait for ever (exit by SIGALRM)
+    // a call that does not return is a finding, not a reason for the check to wait for ever (exit by SIGALRM); the
+    // minimiser, which replays a script that already failed, asks for a shorter wait (VERIF_KV_ALARM)
+    { static unsigned wd; if (!wd) { const char *e = getenv("VERIF_KV_ALARM"); wd = e && atoi(e) > 0 ? (unsigned) atoi(e) : 90; } alarm(wd); }
 #ifdef LOCKORD
     { static char ctxbuf[16]; snprintf(ctxbuf, sizeof(ctxbuf), "%s", op); lockord_ctx = ctxbuf; }
 #endif
